@@ -145,6 +145,15 @@ def scan_c20(repo):
                 if re.search(r'\bCompiler::new\(\)', l) and 'let mut' in l:
                     if not any('set_source_file' in x for x in lines[i:i + 13]):
                         flagged.append('%s:%d function-body compiler created without set_source_file' % (rel, i + 1))
+    # (c) a RuntimeError reaching an outer VM gets that VM's frames appended (defect 76a2deb)
+    vm = os.path.join(repo, 'src/interpreter/bytecode_vm.rs')
+    if os.path.exists(vm):
+        t = open(vm).read()
+        m = re.search(r'fn handle_error_with_trampoline_unwind\b.*?\n    \}\n', t, re.S)
+        body = m.group(0) if m else ''
+        if not re.search(r'JsError::RuntimeError\s*\{[^}]*stack[^}]*\}\s*=>\s*\{[^}]*stack\.extend\(\s*self\.build_stack_trace\(\)\s*\)', body, re.S):
+            flagged.append('src/interpreter/bytecode_vm.rs: handle_error_with_trampoline_unwind does not append build_stack_trace() to an '
+                           'incoming RuntimeError (outer frames of nested VMs)')
     return {'rule': 'function-body compilers propagate the source file (syntactic); set_span / emit counts are informational '
                     '(the set_span discipline itself is only tested by the battery)',
             'set_span_sites': n_set, 'emit_sites': n_emit, 'flagged_sites': flagged}
